@@ -91,6 +91,14 @@ CLAIMED = {
          "modules, garbage) each loaded, processed and read back in a child process under a time limit. Not decided: the reflection-driven builder, "
          "ToEntry, Type.resolve, ApplyDeviate and the lexer state machine as a whole (their functions stay outside the safe set), stack depth."),
    ref="8 (C01)"),
+ "C11": dict(
+   text=("Deductive proof of the parts that are per-call contracts: appendIfNotIn keeps the list in place, adds the identity at most once and never "
+         "duplicates; addChildren returns the list unchanged for an identity that is already collected (the shortcut that ends the walk on a cycle) and "
+         "preserves the well-formedness of every identity's value list. 'Exactly the transitive set' needs reachability, which is not first-order, and "
+         "the recursive bookkeeping needs a typed allocation predicate the memory model lacks: that clause is a bounded stand-in (labelled): 60 random "
+         "derivation graphs over up to 3 modules with multiple bases, equal names and arbitrary prefixes, compared with an independently computed "
+         "closure, four runs each for order determinism, identityref leaves checked, undefined bases and cycles must be errors."),
+   ref="8 (C11)"),
 }
 
 NOT_REACHED = {}
